@@ -223,6 +223,7 @@ theorem step_frame (s : Sys F) (e : Ev) (h : notHk e = true) :
   | failNext cid => exact pw_refl _
   | failBind cid => exact pw_refl _
   | stamp idx weak ld ccb cct => exact pw_stampLink (R := LksFrame) LksFrame.rfl' (fun _ _ _ _ _ => Or.inl rfl) _ _ _ _ _ _
+  | syncTimeout => exact pw_syncTimeout (R := LksFrame) _ (fun _ => Or.inl rfl) _
 
 /-- The state after a list of events (outputs dropped). -/
 def runEvs (s : Sys F) (evs : List Ev) : Sys F := evs.foldl (fun s e => (step s e).1) s
@@ -460,6 +461,7 @@ theorem step_id (s : Sys F) (e : Ev) : PW IdFrame s.links (step s e).1.links := 
   | failNext cid => exact id_refl _
   | failBind cid => exact id_refl _
   | stamp idx weak ld ccb cct => exact pw_stampLink (R := IdFrame) IdFrame.rfl' (fun _ _ _ _ _ => rfl) _ _ _ _ _ _
+  | syncTimeout => exact pw_syncTimeout (R := IdFrame) _ (fun _ => rfl) _
 
 theorem runEvs_id (s : Sys F) (evs : List Ev) : PW IdFrame s.links (runEvs s evs).links := by
   unfold runEvs
